@@ -76,6 +76,6 @@ let cmd_blk (t : string list) =
          let (bytes, _) = write_struct block (blk_val b) in
          out ("out " ^ hex_of_bytes bytes);
          out (Printf.sprintf "c %s %d %d %d" (dec_of_n (item_count b)) (List.length b.b_qrs) (List.length b.b_aecs) (List.length b.b_mms))
-       | "gen" -> dump_generic b
+       | "gen" | "gen0" -> dump_generic b
        | _ -> out ("? unknown block op " ^ o))
   | _ -> out "? bad block command"
